@@ -1,4 +1,6 @@
 import GixModel.Lemmas.C48Top
+import GixModel.Lemmas.C48Resolve
+import GixModel.Lemmas.C48ResolvePrint
 /-
 C48 — Revision specs resolve like git rev-parse.  PROPERTY THEOREMS ONLY.
 
@@ -19,6 +21,29 @@ lookups, `git describe` names) and whether that equals `git rev-parse` is NOT pr
                         printed form makes exactly the resolution calls the tree means, in order,
                         and ends with `done` / `Ok`.
 * navigation laws     — `x~a~b = x~(a+b)`, `x^1 = x~1`, `^{kind}` and `^{}` are idempotent.
+
+ROUND 2 (namespace `GixModel.Props.C48.Resolve`, end of this file): the RESOLUTION layer. The gix
+delegate (`gix/src/revision/spec/parse/delegate`) is modelled over an abstract repository
+(`Model/C48R.lean`: references probed by git's DWIM rules = C18's `candidates`, object store with
+kinds/parents/tag targets, prefix lookup returning the candidate list, reflogs, prior checkouts,
+tracking branches, tree/index lookups; commit-message search opaque), and gitrevisions(7) is
+transcribed as a denotational semantics `Spec.C48D.denote` (`Spec/C48Denote.lean`).
+
+* `resolve_eq_spec`  — for EVERY repository and every well-formed syntax tree outside the recorded
+                        deviation classes (`astClean`: abbreviated ids name exactly one object, a
+                        describe name's hex part is not also a reference, no `@{date}`, the sides
+                        of ranges / `^@` / `^!` are commit-ish), interpreting the calls the tree
+                        means with the delegate model gives exactly the object / range / error the
+                        semantics says. Together with `tokenize_print` (the tokenizer issues
+                        exactly `ast.calls` when no call is refused) this covers parsing AND
+                        resolution; what is still oracle-only is listed in props/C48.json.
+* `resolve_print_eq_spec` — bytes to object: if the semantics gives the (clean, well-formed) spec a
+                        value, then running the TOKENIZER model on the printed spec with the
+                        delegate model in the loop (`resolve`, what the driver evaluates to predict
+                        `Repository::rev_parse` from exported repository facts) returns that value.
+* `resolve_no_panic` — on that domain the delegate never reaches its `unreachable!`/`expect` sites.
+* `range_needs_commitish` — the class hypothesis is not decoration: without it the equation fails
+                        (gitoxide answers `tree..commit`, git refuses) — a recorded finding.
 -/
 namespace GixModel.Props.C48
 open GixModel GixModel.C48 GixModel.Spec.C48
@@ -255,3 +280,72 @@ example : peelTo ⟨fun x => if x = 0 then .commit else if x = 9 then .tree else
     fun _ => 9, fun x => x - 1⟩ .tree 5 2 = some 9 := by decide
 
 end GixModel.Props.C48
+
+/-! ## round 2: the resolution layer -/
+namespace GixModel.Props.C48.Resolve
+open GixModel GixModel.C48 GixModel.C48R GixModel.Spec.C48D
+open GixModel.Spec.C48 (Nav Anchor Rev Ast)
+
+/-- `resolve_eq_spec`: the delegate model, fed the calls a well-formed spec means, resolves it to
+what gitrevisions(7) says (`denote`), on every repository, outside the recorded deviation classes. -/
+theorem resolve_eq_spec (R : Repo) (fuel : Nat) (dateOk : Bytes → Bool) (ast : Ast)
+    (hwf : ast.Wf dateOk) (hclean : astClean R fuel ast) :
+    resolveCalls R fuel ast.calls = toOutcome (denote R fuel ast) :=
+  resolveCalls_eq_denote R fuel dateOk ast hwf hclean
+
+/-- on that domain no panic site of the delegate is reached -/
+theorem resolve_no_panic (R : Repo) (fuel : Nat) (dateOk : Bytes → Bool) (ast : Ast)
+    (hwf : ast.Wf dateOk) (hclean : astClean R fuel ast) :
+    resolveCalls R fuel ast.calls ≠ .panic := by
+  rw [resolve_eq_spec R fuel dateOk ast hwf hclean]
+  cases denote R fuel ast <;> simp [toOutcome]
+
+/-- a successful resolution of a single revision names an object the semantics names -/
+theorem resolve_single_sound (R : Repo) (fuel : Nat) (dateOk : Bytes → Bool) (r : Rev) (x : Nat)
+    (hwf : (Ast.single r).Wf dateOk) (hclean : revClean R r)
+    (h : resolveCalls R fuel (Ast.single r).calls = .ok (.include_ x)) :
+    denoteRev R fuel r = some x := by
+  rw [resolve_eq_spec R fuel dateOk (.single r) hwf hclean] at h
+  simp only [denote] at h
+  cases hd : denoteRev R fuel r with
+  | none => rw [hd] at h; simp [toOutcome] at h
+  | some y =>
+    rw [hd] at h
+    simp only [Option.map_some, toOutcome, Outcome.ok.injEq, RSpec.include_.injEq] at h
+    rw [h]
+
+/-- bytes → object: on a clean well-formed spec that the semantics gives a value, the tokenizer
+model with the delegate model in the loop (`resolve`, the driver's prediction of
+`Repository::rev_parse`) returns that value for the printed spec -/
+theorem resolve_print_eq_spec (R : Repo) (fuel : Nat) (ast : Ast) (hwf : ast.Wf (fun _ => true))
+    (hclean : astClean R fuel ast) (v : RSpec) (hd : denote R fuel ast = some v) :
+    resolve R fuel ast.print = .ok v := by
+  have h := resolve_eq_spec R fuel _ ast hwf hclean
+  rw [hd] at h
+  cases hr : runCalls R fuel {} ast.calls with
+  | none => simp [resolveCalls, hr, toOutcome] at h
+  | some s => rw [resolve_print R fuel ast hwf s hr, h]; rfl
+
+/-! ### non-vacuity: a repository with commits 0 ← 1 (tree 9), tag 2 → 1, `main` → 1, `v` → 2, `t` → 9 -/
+
+-- `v~1` (through the tag): commit 0; `main..v` : range 1 2; `t..main`: gitoxide answers, git refuses
+example : astClean demo 8 (.single (.nav (.ref [118]) [.ancestor1] none)) := trivial
+example : resolveCalls demo 8 (Ast.single (.nav (.ref [118]) [.ancestor1] none)).calls = .ok (.include_ 0) := by
+  decide +kernel
+example : denote demo 8 (.single (.nav (.ref [118]) [.ancestor1] none)) = some (.include_ 0) := by
+  decide +kernel
+-- the same from the bytes `v~`
+example : (Ast.single (.nav (.ref [118]) [.ancestor1] none)).print = [118, 126] := by decide +kernel
+example : resolve demo 8 [118, 126] = .ok (.include_ 0) := by decide +kernel
+example : resolveCalls demo 8 (Ast.range (some (.nav (.ref main_) [] none)) (some (.nav (.ref [118]) [] none))).calls
+    = .ok (.range 1 2) := by decide +kernel
+
+/-- the `Commitish` hypothesis cannot be dropped: `t..main` with `t` a tree is answered by the
+delegate (recorded finding) and refused by git -/
+theorem range_needs_commitish :
+    ∃ (R : Repo) (fuel : Nat) (ast : Ast), ast.Wf (fun _ => false) ∧
+      resolveCalls R fuel ast.calls ≠ toOutcome (denote R fuel ast) :=
+  ⟨demo, 8, .range (some (.nav (.ref [116]) [] none)) (some (.nav (.ref main_) [] none)),
+    by decide +kernel, by decide +kernel⟩
+
+end GixModel.Props.C48.Resolve
